@@ -110,6 +110,15 @@ def mapping_rules(chk):
                 if not pops or min(pops) > i0:
                     chk.bad(r, name, "the logging section is not removed before the unknown-section comparison: a configuration with a logging section is rejected", node=fi.node, stmt="logging-not-removed")
                     ok = False
+            # the names compared are the names looked up: a validation that first normalises either side (strip,
+            # casefold, lower, ...) accepts keys the exact lookup `config[plugin.section]` then never finds, so a
+            # mis-spelled section passes as known and is silently never digested
+            NORMALISE = {"strip", "lstrip", "rstrip", "casefold", "lower", "upper", "title", "capitalize", "replace", "removeprefix", "removesuffix", "split", "partition"}
+            for _i, e in val:
+                edits = sorted({s[1][2] for s in subterms(e[1]) if s[0] == "call" and s[1][0] == "attr" and s[1][2] in NORMALISE})
+                if edits and ok:
+                    chk.bad(r, name, "the unknown-section check compares names after %s(), but sections are looked up by their exact name: a key that only matches after normalisation is accepted as known and then never digested (a required section is reported missing only after earlier plugins have run)" % "()/".join(edits), node=fi.node, stmt="validation-normalises")
+                    ok = False
             for i, e in val:
                 if e[2] is True:
                     # unknown sections found: the path must end by raising ConfigurationError, without any digest
@@ -258,8 +267,17 @@ def _same_container(a, b, path):
 
 def _find_dep_map(prog, fi):
     """(name of the mapping handed to toposort_flatten, the toposort call, the function that builds the mapping)"""
+    def is_topo(n):
+        d = util.dotted(n.func) or ""
+        if d.split(".")[-1] in ("toposort_flatten", "toposort"):
+            return True
+        # a module-level  _flatten = partial(toposort_flatten, sort=False)
+        st = fi.module.defs.get(d) if d and "." not in d else None
+        v = getattr(st, "value", None)
+        return isinstance(v, ast.Call) and prog.resolve(fi.module, v.func) == "ext:functools.partial" and bool(v.args) and (util.dotted(v.args[0]) or "").split(".")[-1] in ("toposort_flatten", "toposort")
+
     for n in ast.walk(fi.node):
-        if isinstance(n, ast.Call) and (util.dotted(n.func) or "").split(".")[-1] in ("toposort_flatten", "toposort"):
+        if isinstance(n, ast.Call) and is_topo(n):
             if n.args and isinstance(n.args[0], ast.Name):
                 return n.args[0].id, n, fi
             if n.args and isinstance(n.args[0], ast.Call):
@@ -547,11 +565,35 @@ def constraints_rules(chk):
     for n in ast.walk(fi.node):
         if isinstance(n, ast.Call) and prog.resolve(fi.module, n.func) == "cobald.daemon.plugins:PluginRequirements":
             ctor = n
+    outer = {}  # helper parameter -> the parameter of constraints() it is given
+    if ctor is None:
+        # built by a module-level helper the decorator calls:  lambda plugin: _attach(plugin, required, before, after)
+        for c in ast.walk(fi.node):
+            g = prog.functions.get(prog.resolve(fi.module, c.func) or "") if isinstance(c, ast.Call) else None
+            if g is None or g.cls is not None or g is fi:
+                continue
+            for n in ast.walk(g.node):
+                if isinstance(n, ast.Call) and prog.resolve(g.module, n.func) == "cobald.daemon.plugins:PluginRequirements":
+                    ctor = n
+                    gp = g.params()
+                    outer = {gp[i]: a.id for i, a in enumerate(c.args) if i < len(gp) and isinstance(a, ast.Name)}
+                    outer.update({k.arg: k.value.id for k in c.keywords if k.arg and isinstance(k.value, ast.Name)})
+                    ctor_fi = g
+    else:
+        ctor_fi = fi
     if ctor is None:
         chk.undecided(r, name, "constraints does not build a PluginRequirements", node=fi.node)
         return
     chk.count(3)
     params = {a.arg for a in fi.node.args.kwonlyargs + fi.node.args.args}
+    if outer:
+        # read the helper's body in terms of the decorator's parameters
+        import copy
+
+        ctor = copy.deepcopy(ctor)
+        for x in ast.walk(ctor):
+            if isinstance(x, ast.Name) and x.id in outer:
+                x.id = outer[x.id]
     for kw in ctor.keywords:
         names = {x.id for x in ast.walk(kw.value) if isinstance(x, ast.Name)} & params
         if kw.arg in ("before", "after", "required") and names != {kw.arg}:
@@ -569,7 +611,7 @@ def constraints_rules(chk):
             continue
         if isinstance(v, ast.Call) and util.dotted(v.func) in ("frozenset", "set", "tuple", "list") and len(v.args) == 1 and isinstance(v.args[0], ast.Name) and v.args[0].id == kw.arg:
             continue
-        h = prog.functions.get(prog.resolve(fi.module, v.func) or "") if isinstance(v, ast.Call) else None
+        h = prog.functions.get(prog.resolve(ctor_fi.module, v.func) or "") if isinstance(v, ast.Call) else None
         if h is not None and len(v.args) == 1 and isinstance(v.args[0], ast.Name) and v.args[0].id == kw.arg and h.params():
             P = ("sym", h.params()[0])
 
@@ -659,14 +701,29 @@ def constraints_rules(chk):
             chk.bad(r, g.qual, "SectionPlugin.%s returns %s" % (acc, util.unparse(rets[0].value) if rets else "nothing"), node=g.node, stmt=acc)
             ok = False
     # the attribute the decorator sets is the one the loader reads
-    set_names = {t.attr for n in ast.walk(fi.node) if isinstance(n, ast.Assign) for t in n.targets if isinstance(t, ast.Attribute)}
+    def attr_name(f, e):
+        """the attribute name an expression denotes: a literal, or a defaulted parameter nothing in the package supplies"""
+        if isinstance(e, ast.Constant) and isinstance(e.value, str):
+            return e.value
+        if isinstance(e, ast.Name) and e.id in f.params(skip_self=False):
+            d = util.unsupplied_default_nodes(prog, f).get(e.id)
+            if isinstance(d, ast.Constant) and isinstance(d.value, str):
+                return d.value
+        return None
+
+    set_names = set()
+    for f in {fi, ctor_fi}:
+        set_names |= {t.attr for n in ast.walk(f.node) if isinstance(n, ast.Assign) for t in n.targets if isinstance(t, ast.Attribute)}
+        set_names |= {attr_name(f, n.args[1]) for n in ast.walk(f.node) if isinstance(n, ast.Call) and util.dotted(n.func) == "setattr" and len(n.args) == 3} - {None}
     load = prog.method("cobald.daemon.config.mapping:SectionPlugin", "load")
+    readers = [load] + [g for g in (prog.lookup_method(load.cls, n.func.attr) for n in ast.walk(load.node) if isinstance(n, ast.Call) and isinstance(n.func, ast.Attribute) and util.dotted(n.func.value) in ("cls", "self", load.cls.name)) if g is not None]
     read_names = set()
-    for n in ast.walk(load.node):
-        if isinstance(n, ast.Call) and util.dotted(n.func) == "getattr" and len(n.args) >= 2 and isinstance(n.args[1], ast.Constant):
-            read_names.add(n.args[1].value)
-        elif isinstance(n, ast.Attribute) and n.attr.startswith("__") and n.attr.endswith("__") and "requirements" in n.attr:
-            read_names.add(n.attr)
+    for f in readers:
+        for n in ast.walk(f.node):
+            if isinstance(n, ast.Call) and util.dotted(n.func) == "getattr" and len(n.args) >= 2 and attr_name(f, n.args[1]) is not None:
+                read_names.add(attr_name(f, n.args[1]))
+            elif isinstance(n, ast.Attribute) and n.attr.startswith("__") and n.attr.endswith("__") and "requirements" in n.attr:
+                read_names.add(n.attr)
     if not (set_names & read_names):
         chk.bad(r, name, "the decorator stores the requirements as %s but the loader reads %s" % (sorted(set_names), sorted(read_names)), node=fi.node, stmt="attr-name")
         ok = False
